@@ -45,6 +45,7 @@ enum NoteKind : uint8_t {
 	NOTE_ITER,           // external iterate-and-remove: a = 1 if the iteration visited exactly the pre-op plan in order, b = visited count
 	NOTE_BUFEQ,          // a = (buf0 == buf1), b = (buf0 != buf1), c = bytes equal
 	NOTE_BUFACT,
+	NOTE_ITER_REMOVE,    // external iterate-and-remove: the task at index a of the plan as it is at this moment was removed through the iterator
 	NOTE_HELD,           // a = the CPlan, b = the Plan obtained before the operation iterate exactly what a fresh plan() shows after it
 	NOTE_AFTER,          // observation right after the actions of a callback (state = callback state, d = method): req + machine view         // a, b = activity (active state or NOID) of the savers behind buffers 0 and 1
 };
